@@ -125,6 +125,8 @@ class WSPeer(BasePeer):
             go()
 
     def _script_item(self, conn, item):
+        if item.get("clock_jump") is not None:
+            self.k.jump_clock(float(item["clock_jump"]))  # (scheduled like server behaviour; it is the client's wall clock that steps)
         if item.get("client_send_fail"):
             # from now on the client's writes on this connection fail (the server's RST has reached the client's stack
             # before the client writes again)
